@@ -41,6 +41,7 @@ THEOREMS = [
     "cache_refines_map", "lookup_after_history", "get_never_raises", "damaged_entry_removed",
     "expired_entry_removed", "foreign_version_cleared", "cache_ops_never_raise", "put_then_get", "file_names_injective", "version_stamp_is_no_entry", "ids_do_not_alias",
     "warm_fetches_nothing", "second_client_fetches_nothing", "other_policy_no_cache",
+    "parsed_hook_on_every_open", "warm_open_applies_same_hooks",
     "options_reattached", "options_reattached_partial", "reattach_schema_import_refuted",
     "wrapped_follows_options", "wrapped_follows_options_partial", "wrapped_stale_refuted",
     "toy_format_ok", "mem_options_reattached", "mem_warm_fetches_nothing",
@@ -768,6 +769,90 @@ def optset(name):
     return kw
 
 
+# document plugins given to every client of a scenario (and to the uncached reference client)
+PLUGSETS = {
+    "none": (),                       # only the recorder
+    "patch": ("patch",),              # parsed(): idempotent edits of the WSDL schema / an imported XSD
+    "append": ("append",),            # parsed(): edits that must be applied exactly once (serialising caches only)
+    "loaded": ("loaded",),            # loaded(): edits of the raw bytes
+    "both": ("loaded", "patch"),
+}
+CURRENT_PLUG = ["none"]
+_PLUGIN_CLASSES = {}
+
+
+def plugin_classes():
+    if _PLUGIN_CLASSES:
+        return _PLUGIN_CLASSES
+    import suds.plugin
+    import suds.sax.element
+
+    def walk(e):
+        yield e
+        for c in list(e.children):
+            for x in walk(c):
+                yield x
+
+    def add_child(seq, name, once):
+        if once and any(c.get("name") == name for c in seq.children):
+            return
+        prefix = seq.prefix
+        e = suds.sax.element.Element(("%s:element" % prefix) if prefix else "element")
+        e.set("name", name)
+        e.set("type", "%s:string" % prefix if prefix else "string")
+        e.set("minOccurs", "0")
+        seq.append(e)
+
+    def edit(root, names, once):
+        for e in walk(root):
+            target = names.get((e.name, e.get("name")))
+            if target is None:
+                continue
+            for s in walk(e):
+                if s.name == "sequence":
+                    add_child(s, target, once)
+                    break
+
+    class Recorder(suds.plugin.DocumentPlugin):
+        def __init__(self, log):
+            self.log = log
+
+        def loaded(self, context):
+            self.log.append(("loaded", str(context.url)))
+
+        def parsed(self, context):
+            self.log.append(("parsed", str(context.url)))
+
+    class Patch(suds.plugin.DocumentPlugin):
+        """repairs the documents: a parameter more for operation f, a field more for two types"""
+
+        def parsed(self, context):
+            edit(context.document, {("element", "f"): "lang", ("complexType", "Person"): "nick",
+                                    ("complexType", "TA"): "w"}, True)
+
+    class Append(suds.plugin.DocumentPlugin):
+        def parsed(self, context):
+            edit(context.document, {("element", "f"): "extra", ("complexType", "Person"): "more"}, False)
+
+    class Loaded(suds.plugin.DocumentPlugin):
+        def loaded(self, context):
+            doc = context.document
+            if isinstance(doc, bytes):
+                context.document = doc.replace(b'name="age"', b'name="years"').replace(b'name="v"', b'name="vv"')
+
+    _PLUGIN_CLASSES.update(recorder=Recorder, patch=Patch, append=Append, loaded=Loaded)
+    return _PLUGIN_CLASSES
+
+
+def make_plugins(hooklog):
+    cls = plugin_classes()
+    return [cls["recorder"](hooklog)] + [cls[n]() for n in PLUGSETS[CURRENT_PLUG[0]]]
+
+
+def refkey(optname):
+    return (CURRENT_PLUG[0], optname)
+
+
 def opt_unwrap(name):
     return OPTSETS[name].get("unwrap", True)
 
@@ -867,7 +952,9 @@ def build_client(member, location, kind, dur, pol, optname, world_fault=None, ca
     sent = []
     cachelog = []
     kwargs = optset(optname)
-    kwargs.update(documentStore=make_store(docs, log), transport=invoking_transport(log, style, tns_types, sent))
+    hooklog = []
+    kwargs.update(documentStore=make_store(docs, log), transport=invoking_transport(log, style, tns_types, sent),
+                  plugins=make_plugins(hooklog))
     if cache_obj is not None:
         kwargs["cache"] = cache_obj
         kwargs["cachingpolicy"] = pol
@@ -881,17 +968,19 @@ def build_client(member, location, kind, dur, pol, optname, world_fault=None, ca
         kwargs["cache"] = rec_cache_class(kind, cachelog)(location, seconds=dur)
         kwargs["cachingpolicy"] = pol
     r = dict(fetched=None, transport=False, fp=None, wrapped=False, reply_cached=False, exc=None,
-             options_current=False, client=None)
+             options_current=False, client=None, parsed=[])
     try:
         client = suds.client.Client("suds://main.wsdl", **kwargs)
     except Exception as e:
         r["exc"] = "%s: %s" % (type(e).__name__, e)
+        r["parsed"] = [u for h, u in hooklog if h == "parsed"]
         r["fetched"] = list(map(str, log.urls))
         r["transport"] = log.transport > 0
         return r
     r["client"] = client
     r["refingerprint"] = lambda: behaviour(client, member, sent)
     r["fetched"] = list(map(str, log.urls))
+    r["parsed"] = [u for h, u in hooklog if h == "parsed"]
     try:
         cur = client.wsdl.options is client.options
         for imp in client.wsdl.imports:
@@ -954,15 +1043,15 @@ def run_scenario(member, sc, location, refs):
             obs = None
             if op[0] == "client":
                 _, kind, dur, pol, optname = op
-                if optname not in refs:
+                if refkey(optname) not in refs:
                     world.uninstall()
                     try:
-                        refs[optname] = build_client(member, None, None, 0, 0, optname)
+                        refs[refkey(optname)] = build_client(member, None, None, 0, 0, optname)
                     finally:
                         world.install()
                 obs = build_client(member, location, kind, dur, pol, optname)
-                obs["ref_wrapped"] = refs[optname]["wrapped"]
-                obs["fp_same"] = obs["fp"] is not None and obs["fp"] == refs[optname]["fp"]
+                obs["ref_wrapped"] = refs[refkey(optname)]["wrapped"]
+                obs["fp_same"] = obs["fp"] is not None and obs["fp"] == refs[refkey(optname)]["fp"]
                 obs.pop("client", None)
                 obs.pop("refingerprint", None)
             elif op[0] == "plant":
@@ -1008,6 +1097,7 @@ def c_cobs(obs, ids):
     if obs is None:
         return "(@None cobs)"
     fetched = clist([cN(ids.get(u, 999)) for u in obs["fetched"]], "N")
+    fetched += " " + clist([cN(ids.get(u, 999)) for u in obs["parsed"]], "N")
     if obs["exc"] is not None:
         out = "CRaise"
         return "(Some (mkcobs %s %s CRaise false false false))" % (fetched, cbool(obs["transport"]))
@@ -1226,14 +1316,14 @@ WHAT_STALE = ("a Client(..., unwrap=U) built over a warm ObjectCache with cachin
 
 def flipped_ref(member, optname, refs):
     key = optname + "~flipped-unwrap"
-    if key not in refs:
+    if refkey(key) not in refs:
         saved = OPTSETS[optname]
         OPTSETS[key] = dict(saved, unwrap=not opt_unwrap(optname))
         try:
-            refs[key] = build_client(member, None, None, 0, 0, key)
+            refs[refkey(key)] = build_client(member, None, None, 0, 0, key)
         finally:
             del OPTSETS[key]
-    return refs[key]
+    return refs[refkey(key)]
 
 
 def bad_observations(member, imps, opened_urls, sc, observed, refs):
@@ -1358,9 +1448,12 @@ def check_clients(ck, version):
         names = scenario_names(urls, md5)
         info = (ref, urls, ids, md5, imps, opened, docstyle, names)
         refs = {}
-        for group, sc in (fixed if fixed is not None else gen_scenarios(ck, names)):
+        plugs = sorted(PLUGSETS)
+        for j, (group, sc) in enumerate(fixed if fixed is not None else gen_scenarios(ck, names)):
             loc = os.path.join(ROOT, "c%d" % k, "cache")
             k += 1
+            plug = plugs[(j + k + shape) % len(plugs)] if group != "default" else "patch"
+            CURRENT_PLUG[0] = plug
             if group == "default":
                 import tempfile
                 saved_tmp = tempfile.tempdir
@@ -1381,7 +1474,9 @@ def check_clients(ck, version):
             shutil.rmtree(os.path.dirname(loc), ignore_errors=True)
             terms.append(c_ccase(version, info, quirks, sc, observed))
             bad = bad_observations(member, imps, [urls[i - 1] for i in opened], sc, observed, refs)
-            keep.append(((shape, nops, style), sc, observed, bad))
+            CURRENT_PLUG[0] = "none"
+            keep.append(((shape, nops, style, plug), sc, observed, bad))
+            ck.count("scenario-plugins:" + plug)
             nclients = [o for o in sc if o[0] == "client"]
             warmhit = any(obs is not None and obs["exc"] is None and not obs["fetched"] for obs, _ in observed)
             ck.seen(("scenario", shape, nops, style, tuple(sc)), nontrivial=warmhit)
@@ -1436,11 +1531,11 @@ def run_mem_scenario(member, clients, refs):
     cache = mem_cache()
     out = []
     for pol, optname in clients:
-        if optname not in refs:
-            refs[optname] = build_client(member, None, None, 0, 0, optname)
+        if refkey(optname) not in refs:
+            refs[refkey(optname)] = build_client(member, None, None, 0, 0, optname)
         obs = build_client(member, None, "mem", 0, pol, optname, cache_obj=cache)
-        obs["ref_wrapped"] = refs[optname]["wrapped"]
-        obs["fp_same"] = obs["fp"] is not None and obs["fp"] == refs[optname]["fp"]
+        obs["ref_wrapped"] = refs[refkey(optname)]["wrapped"]
+        obs["fp_same"] = obs["fp"] is not None and obs["fp"] == refs[refkey(optname)]["fp"]
         out.append(obs)
     still_own, later_same = [], []
     for (pol, optname), obs in zip(clients, out):
@@ -1451,7 +1546,7 @@ def run_mem_scenario(member, clients, refs):
             still_own.append(False)
         # informational: does the earlier client still behave per its own options now?
         try:
-            later_same.append(c is not None and obs["refingerprint"]() == refs[optname]["fp"])
+            later_same.append(c is not None and obs["refingerprint"]() == refs[refkey(optname)]["fp"])
         except Exception:
             later_same.append(False)
     for obs in out:
@@ -1487,6 +1582,7 @@ def mem_bad_observations(clients, observed):
 
 def c_mobs(obs, ids):
     fetched = clist([cN(ids.get(u, 999)) for u in obs["fetched"]], "N")
+    fetched += " " + clist([cN(ids.get(u, 999)) for u in obs["parsed"]], "N")
     if obs["exc"] is not None:
         return "(mkmobs %s %s CRaise false false)" % (fetched, cbool(obs["transport"]))
     return "(mkmobs %s %s (COk %s %s) %s %s)" % (fetched, cbool(obs["transport"]), cbool(obs["options_current"]),
@@ -1521,8 +1617,15 @@ def check_mem_clients(ck):
         ref, urls, ids, md5, imps, opened = url_table(member)
         docstyle = build_client(member, None, None, 0, 0, "base")["wrapped"]
         refs = {}
-        for clients in gen_mem_scenarios(ck, imps):
-            observed, still_own, later_same = run_mem_scenario(member, clients, refs)
+        for j, clients in enumerate(gen_mem_scenarios(ck, imps)):
+            # with live cached documents parsed() is handed documents it already patched: idempotent edits only
+            plug = ("none", "patch", "loaded", "both")[(j + shape + nops) % 4]
+            CURRENT_PLUG[0] = plug
+            try:
+                observed, still_own, later_same = run_mem_scenario(member, clients, refs)
+            finally:
+                CURRENT_PLUG[0] = "none"
+            ck.count("mem-scenario-plugins:" + plug)
             terms.append("(mkmcase %s %s %s %s %s)" % (
                 clist(["(%s, %s)" % (cN(ids[u]), cstr(md5[u])) for u in urls], "N * str"),
                 c_world(ids, urls, imps, opened, docstyle),
@@ -1530,7 +1633,7 @@ def check_mem_clients(ck):
                 clist([c_mobs(o, ids) for o in observed], "mobs"),
                 clist([cbool(b) for b in still_own], "bool")))
             bad = mem_bad_observations(clients, observed)
-            keep.append(((shape, nops, style), clients, observed, still_own, bad))
+            keep.append(((shape, nops, style, plug), clients, observed, still_own, bad))
             ck.seen(("mem", shape, nops, style, tuple(clients)),
                     nontrivial=any(o["exc"] is None and not o["fetched"] for o in observed))
             ck.count("mem-scenario")
@@ -1743,8 +1846,10 @@ def _run(ck, version):
                 ck.count("known-defect-scenarios:" + klass)
                 continue
             key, what = GENERIC[reasons[0]]
-            ck.failing_input(key, "%s: documents family_member%r, scenario %s, client #%d (%s)" % (
-                what, tuple(memberid), [" ".join(map(str, o)) for o in sc], idx, ",".join(reasons)),
+            ck.failing_input(key, "%s: documents family_member%r, every client (and the uncached one) with "
+                             "document plugins %s, scenario %s, client #%d (%s)" % (
+                what, tuple(memberid[:3]), PLUGSETS[memberid[3]], [" ".join(map(str, o)) for o in sc], idx,
+                ",".join(reasons)),
                 {"kind": "scenario", "member": list(memberid), "scenario": sc, "observed": strip_obs(observed),
                  "bad": [[a, b, c] for a, b, c in bad]})
     if c_model - c_spec or (c_model and not ck.violations):
@@ -1765,7 +1870,8 @@ def _run(ck, version):
         key, what = GENERIC[reasons[0]]
         ck.failing_input(key, "%s: documents family_member%r, clients (cachingpolicy, options) %s built one "
                          "after the other over ONE in-memory cache instance that returns the stored objects "
-                         "themselves; client #%d (%s)" % (what, tuple(memberid), clients, idx, ",".join(reasons)),
+                         "themselves, document plugins %s; client #%d (%s)" % (
+                             what, tuple(memberid[:3]), clients, PLUGSETS[memberid[3]], idx, ",".join(reasons)),
                          {"kind": "mem-scenario", "member": list(memberid), "clients": [list(c) for c in clients],
                           "observed": strip_obs([(o, []) for o in observed]), "bad": [list(b) for b in bad]})
     if m_model - m_spec:
@@ -1830,7 +1936,9 @@ def replay(ck, payload):
                 print("  %-60s -> %s   files: %s" % (" ".join(map(str, o[:5])), r,
                                                      [n for n, b in zip(OBSERVED_NAMES, pres) if b]))
         elif kind == "scenario":
-            shape, nops, style = payload["member"]
+            shape, nops, style = payload["member"][:3]
+            CURRENT_PLUG[0] = payload["member"][3] if len(payload["member"]) > 3 else "none"
+            print("  document plugins of every client: recorder + %s" % (PLUGSETS[CURRENT_PLUG[0]],))
             docs, ops, tns_types = family_member(shape, nops, style)
             member = (docs, ops, style, tns_types)
             sc = [tuple(o) for o in payload["scenario"]]
@@ -1847,7 +1955,9 @@ def replay(ck, payload):
                               obs["fp_same"], obs["reply_cached"]))
                 print("      directory: %s" % lst)
         elif kind == "mem-scenario":
-            shape, nops, style = payload["member"]
+            shape, nops, style = payload["member"][:3]
+            CURRENT_PLUG[0] = payload["member"][3] if len(payload["member"]) > 3 else "none"
+            print("  document plugins of every client: recorder + %s" % (PLUGSETS[CURRENT_PLUG[0]],))
             docs, ops, tns_types = family_member(shape, nops, style)
             clients = [tuple(c) for c in payload["clients"]]
             observed, still_own, later = run_mem_scenario((docs, ops, style, tns_types), clients, {})
